@@ -55,6 +55,7 @@ fn main() {
     gen1!(out_dir, "c31_batch_snap", "batch_snap", c31::batch_snap, ["input"]);
     gen1!(out_dir, "c31_state_counter", "state_counter", c31::state_counter, ["input"]);
     gen1!(out_dir, "c31_state_prev_last", "state_prev_last", c31::state_prev_last, ["input"]);
+    gen1!(out_dir, "c31_state_opt_keep", "state_opt_keep", c31::state_opt_keep, ["input"]);
     gen1!(out_dir, "c31_two_batches", "two_batches", c31::two_batches, ["a", "b"]);
     gen1!(out_dir, "c31_lookup_counts", "lookup_counts", c31::lookup_counts, ["incs", "gets"]);
     gen1!(out_dir, "c34_atomic_sum", "atomic_sum", c34::atomic_sum, ["writes", "reads"]);
